@@ -61,12 +61,13 @@ mod globset {
     /// matches a path iff one of them does.
     pub broadcast axiom fn axiom_glob_set_build(globs: Seq<Glob>)
         ensures
-            (#[trigger] glob_set_build(globs)) matches Some(s) ==> glob_count(s) == globs.len()
-                && (forall|path: Seq<char>| #[trigger] glob_matches(s, path) <==> exists|i: int| 0 <= i < globs.len() && glob_match_one(#[trigger] globs[i], path));
+            (#[trigger] glob_set_build(globs)) is Some ==> glob_count(glob_set_build(globs).unwrap()) == globs.len()
+                && (forall|path: Seq<char>| #[trigger] glob_matches(glob_set_build(globs).unwrap(), path)
+                    <==> exists|i: int| 0 <= i < globs.len() && glob_match_one(#[trigger] globs[i], path));
 
     /// T-ext (glob syntax): the pattern `**` matches every path.
     pub broadcast axiom fn axiom_double_star_matches_all(path: Seq<char>)
-        ensures glob_of("**"@) matches Some(g) ==> #[trigger] glob_match_one(g, path);
+        ensures glob_of("**"@) is Some ==> #[trigger] glob_match_one(glob_of("**"@).unwrap(), path);
 
     impl Glob {
         #[verifier::external_body]
